@@ -73,7 +73,7 @@ type c46Replay struct {
 	Conc   bool  `json:"concurrent"`
 }
 
-func c46Layout(rng *kit.RNG, gi int) []int {
+func c46Layout(rng *kit.RNG, gi int, thorough bool) []int {
 	var sizes []int
 	switch gi % 8 {
 	case 0: // regression shapes: leading / trailing / consecutive empty blobs
@@ -89,16 +89,19 @@ func c46Layout(rng *kit.RNG, gi int) []int {
 	if rng.Chance(1, 6) {
 		n = rng.Range(13, 40)
 	}
-	// at most one 1 MiB blob per file, in a third of the files (each uncached read of it costs a full
-	// decrypt under the race detector)
+	// sizes are kept small (under the race detector every byte moved costs microseconds on this
+	// machine); one larger blob per file in a third of the files: 64 KiB (quick) / 1 MiB (thorough, 1 in 4)
 	bigAt := -1
 	if n > 0 && rng.Chance(1, 3) {
 		bigAt = rng.Intn(n)
 	}
 	for i := 0; i < n; i++ {
-		s := kit.Pick(rng, []int{0, 1, 2, 4096, 4096, 65536})
+		s := kit.Pick(rng, []int{0, 1, 2, 16, 4096})
 		if i == bigAt {
-			s = 1 << 20
+			s = 65536
+			if thorough && rng.Chance(1, 4) {
+				s = 1 << 20
+			}
 		}
 		sizes = append(sizes, s)
 	}
@@ -109,7 +112,7 @@ func TestVerifC46(t *testing.T) {
 	rec := kit.Start(t, "C46", "fuseread")
 	defer rec.Finish()
 	env := rec.Env
-	groups := env.Pick(32, 1600)
+	groups := env.Pick(32, 250)
 	// one repository per shard (creating one is very expensive under the race detector)
 	be := kit.NewVBackend(5, true)
 	repo, _ := repository.TestRepositoryWithBackend(t, be, 2, repository.Options{Compression: repository.CompressionOff})
@@ -130,7 +133,7 @@ func c46Group(t *testing.T, rec *kit.Rec, gi int, be *kit.VBackend, repo *reposi
 	emptySaved := true
 	err := repo.WithBlobUploader(ctx, func(ctx context.Context, up restic.BlobSaverWithAsync) error {
 		for fi := range files {
-			f := &c46File{Sizes: c46Layout(rng, gi*nFiles+fi)}
+			f := &c46File{Sizes: c46Layout(rng, gi*nFiles+fi, rec.Env.Thorough())}
 			node := &data.Node{Name: fmt.Sprintf("f%d", fi), Type: data.NodeTypeFile, Mode: 0o644, Content: restic.IDs{}}
 			for _, s := range f.Sizes {
 				b := rng.Bytes(s)
@@ -168,7 +171,7 @@ func c46Group(t *testing.T, rec *kit.Rec, gi int, be *kit.VBackend, repo *reposi
 	be.SetYield(40, rec.RNG("yield", gi))
 	wrapped := &c46Repo{Repository: repo, rng: rec.RNG("delay", gi), maxUS: kit.Pick(rng, []int{0, 30, 200})}
 	// small cache: a few 1 MiB blobs fit, so concurrent readers evict each other's blobs
-	root := &Root{repo: wrapped, blobCache: bloblru.New(kit.Pick(rng, []int{3 << 20, 1<<20 + 4096, 64 << 10}))}
+	root := &Root{repo: wrapped, blobCache: bloblru.New(kit.Pick(rng, []int{3 << 20, 70 << 10, 9 << 10}))}
 	for fi, f := range files {
 		fl, err := newFile(root, func() {}, uint64(100+fi), f.node)
 		if err != nil {
@@ -237,7 +240,7 @@ func c46Group(t *testing.T, rec *kit.Rec, gi int, be *kit.VBackend, repo *reposi
 		}
 		fileReads := 0
 		for _, off := range offList {
-			sizes := map[int]bool{0: true, 1: true, 2: true, 128 << 10: true, l + 7: true}
+			sizes := map[int]bool{0: true, 1: true, 2: true, 4097: true, l + 7: true}
 			// boundary-crossing: up to just before / exactly at / just past the next boundaries
 			for _, b := range f.bounds {
 				if int64(b) > off {
@@ -256,7 +259,7 @@ func c46Group(t *testing.T, rec *kit.Rec, gi int, be *kit.VBackend, repo *reposi
 			}
 			sortInt64(sizeList)
 			for _, s := range sizeList {
-				if s > 200<<10 && rng.Chance(3, 4) { // large reads are costly (1 MiB blobs): sample
+				if s > 100<<10 && rng.Chance(3, 4) { // large reads are costly under the race detector: sample
 					continue
 				}
 				read(f, off, int(s), false)
@@ -282,7 +285,7 @@ func c46Group(t *testing.T, rec *kit.Rec, gi int, be *kit.VBackend, repo *reposi
 				if len(f.bounds) > 0 && wrng.Bool() {
 					off = max(0, int64(f.bounds[wrng.Intn(len(f.bounds))])-int64(wrng.Intn(3)))
 				}
-				size := kit.Pick(wrng, []int{1, 2, 100, 4097, 5000, 128 << 10})
+				size := kit.Pick(wrng, []int{1, 2, 3, 100, 4097, 5000, 20000})
 				read(f, off, size, true)
 				creads.Add(1)
 			}
@@ -299,7 +302,7 @@ func c46Group(t *testing.T, rec *kit.Rec, gi int, be *kit.VBackend, repo *reposi
 	rec.Count("blob_loads_observed", wrapped.loads.Load())
 	rec.Count("files_opened", int64(len(files)))
 	if rec.WantSample() {
-		rec.Sample(map[string]any{"group": gi, "blob_sizes_file0": files[0].Sizes, "blob_sizes_file1": files[1].Sizes, "sequential_reads": reads, "concurrent_reads": creads.Load(), "cache_bytes": "3MiB|1MiB+4K|64K", "blob_loads": wrapped.loads.Load()})
+		rec.Sample(map[string]any{"group": gi, "blob_sizes_file0": files[0].Sizes, "blob_sizes_file1": files[1].Sizes, "sequential_reads": reads, "concurrent_reads": creads.Load(), "cache_bytes": "3MiB|70K|9K", "blob_loads": wrapped.loads.Load()})
 	}
 	for _, v := range be.MonitorViolations() {
 		rec.Violation("backend-monitor", v, nil)
